@@ -89,6 +89,8 @@ pub enum Step {
     Ping,
     /// switch the jitter clock task on/off (timers fire while sessions are busy)
     Jitter { on: bool },
+    /// external HTTP client: blocking POST of a form through the simulated network (S5-http only)
+    HttpPost { url: String, pairs: Vec<(String, String)> },
 }
 
 #[derive(Clone, Debug, Serialize, Deserialize, PartialEq)]
@@ -98,6 +100,7 @@ pub enum PStep {
     Start { doc: usize },
     Cancel { sess: usize },
     Yield,
+    HttpPost { url: String, pairs: Vec<(String, String)> },
 }
 
 #[derive(Clone, Debug, Serialize, Deserialize, PartialEq)]
@@ -214,6 +217,48 @@ fn register_session(ctx: &Ctx, doc: usize, res: Result<ScxmlSession, String>) {
     }
 }
 
+/// S5-http: '@loc:<k>' = the location the k-th root session published in _ioprocessors (its 'loc' mark),
+/// '@base' = scheme://host:port the server listens on.
+fn resolve(ctx: &Ctx, s: &str) -> String {
+    if let Some(rest) = s.strip_prefix("@loc:") {
+        let k: usize = rest.parse().unwrap_or(0);
+        let sid = ctx.out.lock().unwrap().root_sessions.get(k).copied().unwrap_or(0);
+        let loc = rec::with(|r| {
+            r.log.iter().find_map(|x| match &x.kind {
+                RecKind::Mark { args, .. } if x.session == sid && args.first().map(|a| a.as_str()) == Some("'loc'") => args.get(1).map(|a| a.trim_matches('\'').to_string()),
+                _ => None,
+            })
+        });
+        loc.unwrap_or_else(|| "http://unpublished.invalid/".to_string())
+    } else if let Some(rest) = s.strip_prefix("@base") {
+        format!("{}{}", crate::net::base(), rest)
+    } else {
+        s.to_string()
+    }
+}
+
+fn http_post(ctx: &Ctx, url: &str, pairs: &[(String, String)]) {
+    let url = resolve(ctx, url);
+    let p: Vec<(&str, &str)> = pairs.iter().map(|(a, b)| (a.as_str(), b.as_str())).collect();
+    let _ = rfsm_verif_seams::http::post_form(&url, &p);
+}
+
+fn resolve_event(ctx: &Ctx, ev: &EvSpec) -> Event {
+    if ev.params.iter().any(|(_, v)| matches!(v, PVal::Str(s) if s.starts_with('@'))) {
+        let mut e2 = ev.clone();
+        for (_, v) in e2.params.iter_mut() {
+            if let PVal::Str(s) = v {
+                if s.starts_with('@') {
+                    *s = resolve(ctx, s);
+                }
+            }
+        }
+        e2.to_event()
+    } else {
+        ev.to_event()
+    }
+}
+
 fn drain_timers(max: usize) {
     for _ in 0..max {
         driver::wait_quiescent();
@@ -238,7 +283,26 @@ pub fn run_scenario(sc: Arc<Scenario>, out: Arc<Mutex<DriverOut>>) {
     }
     rufsm::tracer::set_tracer_factory(Box::new(hooks::RecordingTracerFactory));
     hooks::SNAPSHOTS_ON.with(|s| s.set(sc.knobs.snapshots));
-    let ctx = Arc::new(Ctx { executor: FsmExecutor::new_without_io_processor(), sessions: Arc::new(Mutex::new(Vec::new())), out });
+    let with_http = sc.kind == "S5-http";
+    let mut net_task: Option<shuttle::thread::JoinHandle<()>> = None;
+    let executor = if with_http {
+        let plan: Vec<u8> = sc.notes.get("net_plan").map(|s| s.split(',').filter_map(|x| x.trim().parse().ok()).collect()).unwrap_or_default();
+        rfsm_verif_seams::http::reset(plan);
+        // the real constructor: builds and ignites the server, registers the BasicHTTP and the SCXML processor
+        let e = crate::net::block_on(FsmExecutor::new_with_io_processor());
+        match crate::net::take_server() {
+            Some((server, bases)) => {
+                crate::net::set_base(bases.last().cloned().unwrap_or_default());
+                let wire = rfsm_verif_seams::http::open_wire();
+                net_task = Some(shuttle::thread::Builder::new().name("net".into()).spawn(move || crate::net::serve(server, bases, wire)).unwrap());
+            }
+            None => out.lock().unwrap().start_errors.push("no HTTP server was launched".into()),
+        }
+        e
+    } else {
+        FsmExecutor::new_without_io_processor()
+    };
+    let ctx = Arc::new(Ctx { executor, sessions: Arc::new(Mutex::new(Vec::new())), out });
     let mut producer_handles = Vec::new();
     let mut clock: Option<shuttle::thread::JoinHandle<()>> = None;
 
@@ -260,13 +324,14 @@ pub fn run_scenario(sc: Arc<Scenario>, out: Arc<Mutex<DriverOut>>) {
                         .spawn(move || {
                             for ps in &script {
                                 match ps {
-                                    PStep::Send { sess, ev } => send_to(&c, *sess, ev.to_event()),
+                                    PStep::Send { sess, ev } => send_to(&c, *sess, resolve_event(&c, ev)),
                                     PStep::Start { doc } => {
                                         let r = start_doc(&scc, *doc, &c.executor);
                                         register_session(&c, *doc, r);
                                     }
                                     PStep::Cancel { sess } => send_to(&c, *sess, Event::new_simple(EVENT_CANCEL_SESSION)),
                                     PStep::Yield => shuttle::thread::yield_now(),
+                                    PStep::HttpPost { url, pairs } => http_post(&c, url, pairs),
                                 }
                             }
                             driver::producer_end();
@@ -275,7 +340,7 @@ pub fn run_scenario(sc: Arc<Scenario>, out: Arc<Mutex<DriverOut>>) {
                     producer_handles.push(h);
                 }
             }
-            Step::Send { sess, ev } => send_to(&ctx, *sess, ev.to_event()),
+            Step::Send { sess, ev } => send_to(&ctx, *sess, resolve_event(&ctx, ev)),
             Step::Quiesce => driver::wait_quiescent(),
             Step::DrainTimers { max } => drain_timers(*max),
             Step::Advance { ms } => {
@@ -307,6 +372,11 @@ pub fn run_scenario(sc: Arc<Scenario>, out: Arc<Mutex<DriverOut>>) {
                 } else if let Some(h) = clock.take() {
                     timer::stop_jitter_clock(h);
                 }
+            }
+            Step::HttpPost { url, pairs } => {
+                driver::producer_begin();
+                http_post(&ctx, url, pairs);
+                driver::producer_end();
             }
             Step::Ping => {
                 let n = ctx.sessions.lock().unwrap().len();
@@ -366,6 +436,15 @@ pub fn run_scenario(sc: Arc<Scenario>, out: Arc<Mutex<DriverOut>>) {
         // coroutines are reusable
         driver::wait_until(|| rec::with(|r| r.rfsm_threads_live == 0 && r.timer_tasks_live == 0));
     }
+    if with_http {
+        // stop the processors (the HTTP one notifies its server's shutdown handle), then the network
+        let mut e = ctx.executor.clone();
+        e.shutdown();
+        rfsm_verif_seams::http::close_wire();
+        if let Some(h) = net_task.take() {
+            let _ = h.join();
+        }
+    }
     rec::push(RecKind::Driver { what: "end".into() });
     // drop GlobalData arcs inside the execution
     let sg = rec::with(|r| std::mem::take(&mut r.session_global));
@@ -386,6 +465,7 @@ impl<'a> std::fmt::Debug for StepTag<'a> {
             Step::Shutdown => write!(f, "shutdown"),
             Step::Ping => write!(f, "ping"),
             Step::Jitter { on } => write!(f, "jitter {}", on),
+            Step::HttpPost { url, .. } => write!(f, "http-post {}", url),
         }
     }
 }
